@@ -25,12 +25,13 @@ import time
 HERE = os.path.dirname(os.path.abspath(__file__))
 VERIF = os.path.dirname(HERE)
 COQ = os.path.join(VERIF, "coq")
-REPO = os.environ.get("REPO", "/repo")
+REPO = os.environ.get("VERIF_REPO", "/repo")
 WORK = os.path.join(VERIF, ".work", "srcref")
 MODULES = {
     # the register-access queues: C19, and the hazard bookkeeping under C01/C02
     "RegAccess": {"src": "src/reg_access.py", "term": "SRC", "gen": "RegAccessSrc.v",
                   "files": ["RegAccessEmbed.v", "RegAccessRefine_proof.v", "RegAccessRefine.v"],
+                  "search": "RegAccessSearch.v",
                   "deps": ["model/RegAccess.v", "spec/QueueSpec.v", "proofs/C19_proof.v"],
                   "props": ["C19", "C01", "C02"]},
     # the two tests behind width (C04), memory port (C05) and the issue/advance decisions (C06, C07)
@@ -43,11 +44,11 @@ sys.path.insert(0, HERE)
 import py2coq  # noqa: E402
 
 
-def _coqc(d, f, log):
+def _coqc(d, f, log, timeout=600):
     q = ["-Q", os.path.join(COQ, "model"), "PS", "-Q", os.path.join(COQ, "spec"), "PS", "-Q", os.path.join(COQ, "proofs"), "PS",
          "-Q", os.path.join(COQ, "pylite"), "PS", "-Q", d, "PS", "-w", "-notation-overridden,-deprecated"]
     try:
-        p = subprocess.run(["coqc"] + q + [os.path.join(d, f)], capture_output=True, text=True, timeout=600)
+        p = subprocess.run(["coqc"] + q + [os.path.join(d, f)], capture_output=True, text=True, timeout=timeout)
     except subprocess.TimeoutExpired:
         log.append(f"{f}: timeout")
         return False, ""
@@ -67,7 +68,8 @@ def check_module(name):
         out.update(status="untranslatable", detail=str(e)[:300])
         return out
     h = hashlib.sha256((name + text).encode())
-    for f in [os.path.join(COQ, "srcref", x) for x in m["files"]] + [os.path.join(COQ, "pylite", "PyLite.v")] + \
+    for f in [os.path.join(COQ, "srcref", x) for x in m["files"] + ([m["search"]] if m.get("search") else [])] + \
+            [os.path.join(COQ, "pylite", "PyLite.v")] + \
             [os.path.join(COQ, x) for x in m["deps"]]:
         h.update(open(f, "rb").read())
     key = h.hexdigest()[:20]
@@ -98,6 +100,20 @@ def check_module(name):
     closed = stdout.count("Closed under the global context") if ok else 0
     res = {"status": "proved" if ok and closed == len(names) else "proof-broken",
            "theorems": names, "closed": closed, "log": log, "seconds": round(time.time() - t0, 1)}
+    if res["status"] != "proved" and m.get("search") and os.path.exists(os.path.join(d, m["gen"][:-2] + ".vo")):
+        # the proofs do not go through: bounded search inside Coq for an input on which source and model differ
+        try:
+            shutil.copy(os.path.join(COQ, "srcref", m["search"]), d)
+            shutil.copy(os.path.join(COQ, "srcref", m["files"][0]), d)
+            ok_e, _ = _coqc(d, m["files"][0], log)
+            ok_s, out_s = _coqc(d, m["search"], log, timeout=240) if ok_e else (False, "")
+            if ok_s:
+                txt = " ".join(out_s.split())
+                res["counterexample_search"] = ("source and model differ on (requests, removals, query, source answer, "
+                                                "model answer; 0 error / 1 false / 2 true): " + txt) if "Some" in txt else \
+                    "no difference on all request lists <= 3, removal histories <= 2 (bounded search, not a proof)"
+        except Exception as e:  # noqa: BLE001  the search is an aid, never a reason to fail
+            res["counterexample_search"] = "search not run: " + str(e)[:200]
     json.dump(res, open(res_file, "w"), indent=1)
     # keep the cache small
     olds = sorted((os.path.getmtime(os.path.join(WORK, x)), x) for x in os.listdir(WORK) if not x.startswith("."))
